@@ -15,7 +15,8 @@ CONSTANTS
   MaxRefs = 12
   MaxEv = 8
   MaxTcs = 4
-  MaxTrks = 4
+  MaxTrks = 12
+  TrackMethods <- TrMethods
   MaxLen = 6
   Depth = 1000
   Ops <- AllOps
@@ -26,3 +27,4 @@ INVARIANT Owned
 INVARIANT ArrShared
 INVARIANT TlValid
 INVARIANT FilesWellFormed
+INVARIANT TrackingConserves
